@@ -86,6 +86,8 @@ impl StreamCipherCounter for u128 { open spec fn cval(c: u128) -> int { c as int
 pub trait StreamCipherSeekCore: StreamCipherCore {
     type Counter: StreamCipherCounter;
     spec fn counter_val(c: Self::Counter) -> int;
+    proof fn lemma_counter_val(c: Self::Counter)
+        ensures Self::counter_val(c) == <Self::Counter as StreamCipherCounter>::cval(c);
     // the current block position and the counter modulus; the generator state at block position 0 is
     // StreamCipherCore::korigin()
     spec fn block_pos(&self) -> int;
